@@ -143,6 +143,9 @@ pub(crate) struct RecentSnapshot {
     pub start_line: usize,
     /// Snapshot bytes (oldest -> newest).
     pub bytes: Vec<u8>,
+    /// `bytes[0]` is not the first byte of a line: the beginning of line `start_line` has already
+    /// been evicted, so columns cannot be mapped into that first (partial) line.
+    pub starts_mid_line: bool,
 }
 
 /// A `Read` wrapper that:
@@ -163,6 +166,8 @@ pub(crate) struct RingReader<R> {
     ring_start_offset: u64,
     // 1-based line number at ring[0] (valid only when ring is non-empty).
     ring_start_line: usize,
+    // True when the byte evicted last was not a line break, i.e. ring[0] is inside a line.
+    ring_starts_mid_line: bool,
 
     // Read-ahead bytes (only filled by get_recent()).
     //
@@ -193,6 +198,7 @@ impl<R> RingReader<R> {
             ring: FixedRingBuffer::new(),
             ring_start_offset: 0,
             ring_start_line: 1,
+            ring_starts_mid_line: false,
             stash: FixedRingBuffer::new(),
             returned_total: 0,
         }
@@ -261,6 +267,7 @@ impl<R> RingReader<R> {
             end_offset,
             start_line,
             bytes,
+            starts_mid_line: self.ring_starts_mid_line,
         })
     }
 
@@ -296,6 +303,7 @@ impl<R> RingReader<R> {
                 if evicted == Some(b'\n') {
                     self.ring_start_line = self.ring_start_line.saturating_add(1);
                 }
+                self.ring_starts_mid_line = evicted != Some(b'\n');
             }
 
             self.ring.push_back(b);
